@@ -195,6 +195,23 @@ func (p protoRun) withShortSSID() protoRun {
 		case "eddsa-signing":
 			ssid = edSigningSSID(dealKeys(true, q.Key.N, q.Key.T, q.Key.Pattern, q.Key.Seed).ED, q.Members)
 		default:
+			// the new committee's party keys were drawn distinct from the ORIGINAL old committee's: a candidate
+			// seed whose old keys meet them (as integers or modulo the group order) is outside the generated domain
+			cv := getCurve("secp256k1")
+			if p.edd() {
+				cv = getCurve("ed25519")
+			}
+			clash := false
+			for _, ok := range dealKeys(p.edd(), q.Key.N, q.Key.T, q.Key.Pattern, q.Key.Seed).Keys {
+				for _, nk := range bigs(p.NewKeys) {
+					if new(big.Int).Mod(ok, cv.Q).Cmp(new(big.Int).Mod(nk, cv.Q)) == 0 {
+						clash = true
+					}
+				}
+			}
+			if clash {
+				continue
+			}
 			x := q.build()
 			x.net.Start(0)
 			for _, e := range x.net.Emits {
